@@ -58,7 +58,9 @@ func (rt *runtime) cmplEvaluateNodeStatement(node nodeStatement) Value {
 		return emptyValue
 
 	case *nodeExpressionStatement:
-		return rt.cmplEvaluateNodeExpression(node.expression)
+		// GetValue now (ES5 12.4): a reference kept as a loop's completion value
+		// would otherwise be read only after the loop has moved on.
+		return rt.cmplEvaluateNodeExpression(node.expression).resolve()
 
 	case *nodeForInStatement:
 		return rt.cmplEvaluateNodeForInStatement(node)
